@@ -15,6 +15,7 @@ BAD = [
     ("render-empty", ["@render"], 0), ("render-hint", ["@render:react"], 0),
     ("input-empty", ["@input"], 0), ("input-noname", ['@input label="x"'], 0),
     ("stmt-syntax", ["~ x = = 1"], 0), ("stmt-multiline", ["~ q = [", "  1,", "  2 2", "]"], 2),
+    ("stmt-multiline-notes", ["~ q = [", "  # note", "  1,", "  # another", "  2 2", "]"], 4), ("stmt-multiline-notes-end", ["~ q = [", "  # note", "  1,", "  # another", "  2 +", "]"], 5),
     ("brace-open", ["text {unclosed"], 0), ("brace-close", ["text } stray"], 0),
     ("if-colon", ["@if x"], 0), ("for-colon", ["@for x in y"], 0), ("for-legacy", ["<<for x y>>"], 0),
     ("py-colon", ["@py"], 0), ("if-legacy", ["<<if x"], 0),
